@@ -1,5 +1,6 @@
 import Model.Random
 import Proofs.Reshape
+import Proofs.Rechunk
 
 /-!
 # C18 — the random generator stays in range and shuffling is a safe permutation
@@ -160,6 +161,75 @@ theorem randomTensor_single (seed : Nat) (lo hi : α) (n : Nat)
       ∀ v ∈ vs, lt v lo = false ∧ lt hi v = false := by
   obtain ⟨vs, hf, hl, hr⟩ := fill_shape_and_range seed lo hi n irr hlo
   exact ⟨vs, by simp only [randomTensor, hf], hl, hr⟩
+
+/-- **a randomly initialised rank-2 tensor has the requested shape**: recorded shape `r × c`, `r` rows of `c`
+    entries drawn in row-major order, `r·c` entries in all, every one of them in `[lo, hi]` -/
+theorem randomTensor_double (seed : Nat) (lo hi : α) (r c : Nat)
+    (irr : ∀ a : α, lt a a = false) (hlo : lt hi lo = false) :
+    ∃ rows, randomTensor (create seed) (.double r c) lo hi = .ok ⟨.double r c, .double rows⟩ ∧
+      rows.length = r ∧ (∀ row ∈ rows, row.length = c) ∧ rows.flatten.length = r * c ∧
+      ∀ v ∈ rows.flatten, lt v lo = false ∧ lt hi v = false := by
+  obtain ⟨vs, hf, hl, hr⟩ := fill_shape_and_range seed lo hi (r * c) irr hlo
+  obtain ⟨rows, rest, ht⟩ := L.takeRows_ok c r vs (by omega)
+  obtain ⟨h1, h2, h3⟩ := L.takeRows_spec c r vs rows rest ht
+  have hflat : rows.flatten.length = r * c := by
+    rw [List.length_flatten]
+    have : rows.map List.length = List.replicate rows.length c := by
+      apply List.eq_replicate_iff.mpr
+      refine ⟨by simp, ?_⟩
+      intro x hx
+      simp at hx
+      obtain ⟨row, hr1, hr2⟩ := hx
+      rw [← hr2]; exact h2 row hr1
+    rw [this]; simp [h1]
+  refine ⟨rows, by simp only [randomTensor, hf, ht], h1, h2, hflat, ?_⟩
+  intro v hv
+  apply hr
+  rw [← h3]
+  exact List.mem_append_left _ hv
+
+/-- a list of `a·b` elements is the concatenation of `a` groups of `b` -/
+theorem exists_groups {β : Type} (b : Nat) : ∀ (a : Nat) (l : List β), l.length = a * b →
+    ∃ gs : List (List β), gs.flatten = l ∧ gs.length = a ∧ ∀ g ∈ gs, g.length = b
+  | 0, l, h => ⟨[], by
+      have : l = [] := List.eq_nil_of_length_eq_zero (by simpa using h)
+      simp [this], rfl, by simp⟩
+  | a + 1, l, h => by
+    have e : (a + 1) * b = a * b + b := Nat.succ_mul a b
+    obtain ⟨gs, h1, h2, h3⟩ := exists_groups b a (l.drop b) (by simp [List.length_drop]; omega)
+    refine ⟨l.take b :: gs, by simp [h1], by simp [h2], ?_⟩
+    intro g hg
+    simp at hg
+    rcases hg with rfl | hg
+    · simp; omega
+    · exact h3 g hg
+
+/-- **a randomly initialised rank-4 tensor has the requested shape**: recorded shape `a × b × r × c`, `a` blocks of `b`
+    matrices of `r` rows of `c` entries, every entry in `[lo, hi]` -/
+theorem randomTensor_quadruple (seed : Nat) (lo hi : α) (a b r c : Nat) (hb : 0 < b)
+    (irr : ∀ x : α, lt x x = false) (hlo : lt hi lo = false) :
+    ∃ q, randomTensor (create seed) (.quadruple a b r c) lo hi = .ok ⟨.quadruple a b r c, .quadruple q⟩ ∧
+      q.length = a ∧ (∀ blk ∈ q, blk.length = b ∧ ∀ m ∈ blk, m.length = r ∧ ∀ row ∈ m, row.length = c) ∧
+      ∀ blk ∈ q, ∀ m ∈ blk, ∀ row ∈ m, ∀ v ∈ row, lt v lo = false ∧ lt hi v = false := by
+  obtain ⟨vs, hf, hl, hr⟩ := fill_shape_and_range seed lo hi (a * b * r * c) irr hlo
+  obtain ⟨ms, rest, ht⟩ := L.takeMats_ok r c (a * b) vs (by rw [hl, Nat.mul_assoc (a * b) r c]; exact Nat.le_refl _)
+  obtain ⟨h1, h2, h3⟩ := L.takeMats_spec r c (a * b) vs ms rest ht
+  obtain ⟨q, hq1, hq2, hq3⟩ := exists_groups b a ms h1
+  have hch : L.chunksExact b ms = q := by
+    rw [← hq1]
+    exact Rechunk.chunksExact_flatten b hb q hq3
+  refine ⟨q, by simp only [randomTensor, hf, ht, hch], hq2, ?_, ?_⟩
+  · intro blk hblk
+    refine ⟨hq3 blk hblk, fun m hm => ?_⟩
+    have : m ∈ ms := by rw [← hq1]; exact List.mem_flatten.mpr ⟨blk, hblk, hm⟩
+    exact h2 m this
+  · intro blk hblk m hm row hrow v hv
+    apply hr
+    rw [← h3]
+    apply List.mem_append_left
+    have hmm : m ∈ ms := by rw [← hq1]; exact List.mem_flatten.mpr ⟨blk, hblk, hm⟩
+    unfold L.flatten3
+    exact List.mem_flatten.mpr ⟨m.flatten, List.mem_map.mpr ⟨m, hmm, rfl⟩, List.mem_flatten.mpr ⟨row, hrow, hv⟩⟩
 
 /-! ### shuffle -/
 
